@@ -289,11 +289,13 @@ func normInt(t *Term) *Poly {
 			return normInt(t.Args[0])
 		}
 	}
-	return polyAtom(canon(t))
+	return polyAtom(canon2(t, true))
 }
 
 // canon rewrites a term into its shape-mode canonical form.
-func canon(t *Term) *Term {
+func canon(t *Term) *Term { return canon2(t, false) }
+
+func canon2(t *Term, fromNorm bool) *Term {
 	if t == nil {
 		return nil
 	}
@@ -304,6 +306,10 @@ func canon(t *Term) *Term {
 	if isIntLike(t.Typ) {
 		switch t.Op {
 		case OpAdd, OpSub, OpMul, OpNeg, OpShl:
+			if fromNorm {
+				// normInt could not expand this node: canonicalise the operands only
+				return canonArgs(t)
+			}
 			p := normInt(t)
 			if len(p.m) == 1 {
 				for _, mo := range p.m {
